@@ -71,6 +71,8 @@ ONLY = lambda *on: [n in on for n in ["time", "vars", "pars", "dpars", "dvars", 
 QUERIES2 = [
     ["q", "names", "vars"], ["q", "names", "pars"], ["q", "names", "rxns"], ["q", "names", "readouts"],
     ["q", "names", "surouts"], ["q", "names", "survars"], ["q", "names", "surrxns"], ["q", "names", "unused"],
+    ["q", "names", "rawvars"], ["q", "names", "rawpars"], ["q", "names", "rawderived"], ["q", "names", "rawrxns"],
+    ["q", "names", "rawreadouts"], ["q", "names", "rawsurs"], ["q", "stoichvar", "z", ["1", "3"], "1"],
     ["q", "argnames", FL(readouts=True)], ["q", "argnames", ONLY("vars", "rxns", "surfluxes")],
     ["q", "argnames", ONLY("dpars")], ["q", "argnames", ONLY("time", "dvars", "survars", "readouts")],
     ["q", "argsf", ["2", "1", "3"], "1", ONLY("dpars", "dvars")], ["q", "argsf", None, "0", ONLY("time", "pars", "survars")],
@@ -101,7 +103,7 @@ CHOICES = {
                       ["n1", IA(["k"], ["*", A(0), K(2)])], ["ro", V(1)], ["s", V(1)]],
     "remove_parameter": [["p"], ["x"], ["k"], ["q"], ["nope"], ["dd"]],
     "update_parameter": [["k", V(5)], ["x", V(5)], ["k", IA(["p"], ["+", A(0), K(1)])], ["q", V(7)], ["nope", V(1)],
-                         ["k", None], ["q", IA(["k"], A(0))]],
+                         ["k", None], ["q", IA(["k"], A(0))], ["k", None, "meta"], ["p", V(2), "meta"]],
     "scale_parameter": [["k", "2"], ["x", "2"], ["q", "2"], ["nope", "2"], ["p", "1/2"]],
     "make_parameter_dynamic": [["k", None, None], ["k", None, [["nope", "1"]]], ["k", "5", None], ["k", None, [["r1", "2"]]],
                                ["k", None, [["sf", "1"]]], ["k", None, [["r1", "1"], ["nope", "1"]]], ["q", None, None],
@@ -117,7 +119,7 @@ CHOICES = {
     "add_variable": [["n1", V(2)], ["x", V(2)], ["k", V(2)], ["sf", V(2)], ["time", V(1)],
                      ["n1", IA(["x", "k"], ["+", A(0), A(1)])], ["dv", V(1)]],
     "remove_variable": [["y", True], ["k", True], ["x", False], ["z", True], ["nope", True], ["x", True], ["dp", False]],
-    "update_variable": [["x", V(5)], ["k", V(5)], ["z", V(1)], ["x", IA(["k"], A(0))], ["nope", V(1)]],
+    "update_variable": [["x", V(5)], ["k", V(5)], ["z", V(1)], ["x", IA(["k"], A(0))], ["nope", V(1)], ["y", V(3), "meta"]],
     "make_variable_static": [["x", None], ["k", None], ["x", "5"], ["z", None], ["nope", None], ["y", "1/2"]],
     "add_variables": [[[["n1", V(1)], ["n2", V(2)]]], [[["n1", V(1)], ["x", V(2)]]], [[["k", V(1)], ["n1", V(2)]]],
                       [[["n1", VO(1)], ["n2", {**IA(["x"], A(0)), "obj": True}]]]],
@@ -129,13 +131,13 @@ CHOICES = {
                     ["n1", fn(["r1", "sf"], ["+", A(0), A(1)])]],
     "update_derived": [["dp", ["*", A(0), A(1)], None], ["x", ["*", A(0), A(1)], None], ["dp", None, ["p", "k"]],
                        ["dp", ["-", A(0), A(1)], ["x", "k"]], ["nope", None, ["k"]], ["dv", A(0), ["k"]],
-                       ["ds", None, ["sf"]]],
+                       ["ds", None, ["sf"]], ["dp", None, None, "meta"]],
     "remove_derived": [["dp"], ["x"], ["dv"], ["ds"], ["nope"], ["r1"]],
     "add_reaction": [["n1", RX], ["r1", RX], ["x", RX], ["so", RX], ["time", RX],
                      ["n1", {**fn(["x"], A(0)), "st": [["y", fn(["k"], A(0))], ["x", fn(["y"], A(0))]]}]],
     "update_reaction": [["r1", ["+", A(0), A(1)], None, None], ["x", None, None, None], ["r1", None, None, [["y", {"c": "3"}]]],
                         ["r1", A(0), ["y"], [["x", {"c": "1"}], ["y", fn(["x"], A(0))]]], ["nope", A(0), ["y"], None],
-                        ["r2", None, ["x", "k"], None]],
+                        ["r2", None, ["x", "k"], None], ["r1", None, None, None, "meta"]],
     "remove_reaction": [["r1"], ["x"], ["r2"], ["nope"], ["sf"]],
     "add_readout": [["n1", fn(["x", "r1"], ["+", A(0), A(1)])], ["ro", fn(["x"], A(0))], ["x", fn(["x"], A(0))],
                     ["time", fn(["x"], A(0))], ["n1", fn(["nope"], A(0))]],
@@ -146,13 +148,17 @@ CHOICES = {
                       # keyword form: args / outputs / stoichiometries override the object's own
                       ["n1", sur(["so", "sf"]), ["y"], ["o1", "o2"], [["o2", [["x", {"c": "1"}]]]]],
                       ["n1", sur(["o1", "o2"]), None, ["o1", "k"], None], ["n1", sur(["o1"], ("x",), "o1"), ["x", "y"], None, []],
-                      ["n1", sur(["so"]), None, ["n1"], None]],
+                      ["n1", sur(["so"]), None, ["n1"], None],
+                      ["n1", {"args": ["x"], "outs": ["o1", "o2"], "es": [["+", A(0), K(1)], ["*", A(0), K(3)]],
+                              "st": [["o1", [["y", fn(["p"], ["*", A(0), K(4)])], ["x", fn(["y"], A(0))]]],
+                                     ["o2", [["z", fn(["dd"], A(0))]]]]}]],
     "update_surrogate": [["s", sur(["so", "sf"], ("y",), "sf"), None, None, None], ["s", None, None, ["o8", "o9"], None],
                          ["s", sur(["so", "o9"], ("x",), "o9"), None, None, None], ["s", None, ["y", "x"], None, None],
                          ["s", None, None, None, [["so", [["x", {"c": "1"}]]]]], ["s", sur(["o1", "k"]), None, None, None],
                          ["nope", sur(["o1"]), None, None, None], ["x", sur(["o1"]), None, None, None],
                          ["s", None, None, ["sf", "so"], None], ["s", sur(["o1", "o1"]), None, None, None],
-                         ["s", None, None, ["so", "time"], None], ["s", sur(["o7"], ("k",)), ["x"], ["so", "sf"], []]],
+                         ["s", None, None, ["so", "time"], None], ["s", sur(["o7"], ("k",)), ["x"], ["so", "sf"], []],
+                         ["s", None, None, None, [["sf", [["y", fn(["dp"], A(0))], ["x", fn(["time"], A(0))]]]]]],
     "remove_surrogate": [["s"], ["x"], ["so"], ["nope"]],
     "add_data": [["n1", "3"], ["dd", "3"], ["x", "3"], ["time", "1"], ["sf", "1"]],
     "update_data": [["dd", "5"], ["zz", "1"], ["x", "1"]],
@@ -242,6 +248,20 @@ def arity_histories():
             k += 1
             mid = ([q1] if q1 else []) + [op] + qs + ([repair] + qs[:2] + [["q", "pvals"]] if repair else [])
             yield {"ops": BASE + mid, "check_from": len(BASE), "stratum": "arity", "shape": f"arity:{op[0]}"}
+
+
+def extra_histories():
+    """branches that need two steps of preparation: make_parameter_dynamic with a flux that only the SECOND
+    surrogate has (the loop passes a surrogate without it), and with fluxes of a reaction and a surrogate at once"""
+    two = [["add_surrogate", "n1", SUR2]]
+    for q in (None, QUERIES[0]):
+        for mpd in (["make_parameter_dynamic", "k", None, [["o2", "1"]]],
+                    ["make_parameter_dynamic", "p", "2", [["sf", "2"], ["o2", "-1"], ["r1", "1"]]],
+                    ["make_parameter_dynamic", "k", None, [["o2", "1"], ["o1", "1"]]]):
+            mid = two + ([q] if q else []) + [mpd, ["q", "stoich", ["1", "2", "3", "1"], "1"], ["q", "rawstoich", mpd[1]],
+                                               ["q", "names", "surrxns"]]
+            yield {"ops": BASE + mid + BATTERY[-2:], "check_from": len(BASE), "stratum": "extra",
+                   "shape": "extra:make_parameter_dynamic"}
 
 
 def triples(rng=None, n=None):
